@@ -319,10 +319,17 @@ def run(ctx):
                 if not ctx.known_finding(KF, KF_TEXT):
                     ctx.oracle_fail(c, {"oracle": "RankInvariantChecker did not terminate (some alternative's bound is 0 "
                                                   "on every criterion)"})
-            else:
-                ctx.oracle_fail(c, {"oracle": "RankInvariantChecker did not terminate within 25 s although every "
-                                              "alternative has a positive bound on some criterion"})
-            continue
+                continue
+            # a slow machine is not a hang: once more, alone, with a long budget (for the first few such cases)
+            retried = ctx.hist.get("retried_alone", 0)
+            if retried < 3:
+                ctx.count("retried_alone")
+                o = I.pmap_timeout(run_impl, [c], 240)[0]
+            if "timeout" in o:
+                ctx.oracle_fail(c, {"oracle": "RankInvariantChecker did not terminate within 25 s (nor, alone, within "
+                                              "240 s) although every alternative has a positive bound on some criterion"})
+                continue
+            ctx.count("slow_but_terminated")
         ctx.count("strategy:" + c["strategy"])
         ctx.count("drop:" + str(c["drop"]))
         nt = c["repeat"] >= 2 or c["drop"] is not None
